@@ -7,6 +7,7 @@ import (
 	"go/types"
 
 	"golang.org/x/tools/go/cfg"
+	"golang.org/x/tools/go/ssa"
 
 	"verif/checker/internal/core"
 )
@@ -126,56 +127,62 @@ func ruleCollectPackages(c *core.Ctx) {
 		return
 	}
 	info := p.TypesInfo
-	chain := paramObj(info, d, "importChain")
-	collected := paramObj(info, d, "alreadyCollected")
-	depth := paramObj(info, d, "depthRemaining")
-	if chain == nil || collected == nil || depth == nil {
-		c.Undecided(rule, "collectPackages/params", d.Pos(), "parameters importChain / alreadyCollected / depthRemaining not found")
+	sf := c.SSAFunc(f)
+	if sf == nil {
+		c.Undecided(rule, "collectPackages/ssa", d.Pos(), "no SSA form")
 		return
 	}
-	fc := core.NewCFG(d.Body, info)
-	// (1) cycle test `if importChain[...] {return err}` and the alreadyCollected lookup
-	var cycleIf, collectedIf *ast.IfStmt
-	ast.Inspect(d.Body, func(n ast.Node) bool {
-		is, ok := n.(*ast.IfStmt)
-		if !ok {
-			return true
-		}
-		if mapIndexOf(info, is.Cond, chain) && cycleIf == nil {
-			cycleIf = is
-		}
-		if as, ok := is.Init.(*ast.AssignStmt); ok && len(as.Rhs) == 1 && mapIndexOf(info, as.Rhs[0], collected) && collectedIf == nil {
-			collectedIf = is
-		}
-		return true
+	// the parameters are identified by their types, not their names
+	chains := paramsByType(sf, func(t types.Type) bool { return isMapTo(t, isBoolType) })
+	colls := paramsByType(sf, func(t types.Type) bool { return isMapTo(t, isPtrToNamed("PackageInfo")) })
+	depths := paramsByType(sf, func(t types.Type) bool {
+		b, ok := t.Underlying().(*types.Basic)
+		return ok && b.Info()&types.IsInteger != 0
 	})
-	if cycleIf == nil || collectedIf == nil {
-		c.Undecided(rule, "collectPackages/cycle-test-and-shortcut", d.Pos(), "could not find `if importChain[ns]` and `if x, found := alreadyCollected[ns]; found`")
-	} else {
-		// cycle branch returns a non-nil error
-		c.Check(branchReturnsError(info, cycleIf.Body), rule, "collectPackages/cycle branch returns error", cycleIf.Pos(), "cycle branch returns a non-nil error", "the import-cycle branch does not return an error")
-		// every path from entry to the shortcut passes the false edge of the cycle test
-		cb := fc.BlockOf(cycleIf.Cond)
-		sb := fc.BlockOf(collectedIf.Init)
-		ok := false
-		if cb != nil && sb != nil && len(cb.Succs) == 2 {
-			r := fc.ReachableBlocks(fc.Entry(), map[core.Edge]bool{{From: cb, To: cb.Succs[1]}: true}, nil)
-			ok = !r[sb]
+	if len(chains) != 1 || len(colls) != 1 || len(depths) != 1 {
+		c.Undecided(rule, "collectPackages/params", d.Pos(), "expected one map[string]bool (import chain), one map[string]*PackageInfo (collected) and one integer (depth) parameter")
+		return
+	}
+	chainP, collP, depthP := chains[0], colls[0], depths[0]
+	chain, _ := chainP.Object().(*types.Var)
+	depth, _ := depthP.Object().(*types.Var)
+	fc := core.NewCFG(d.Body, info)
+	// (1) the cycle test and the already-collected shortcut, on SSA: the lookup in the collected map is
+	// only reached over the "not on the chain" edge of the test of the chain map
+	var cycleTrue, cycleFalse *ssa.BasicBlock
+	var collLookupBlock, foundSucc *ssa.BasicBlock
+	ifEdges(sf, func(b *ssa.BasicBlock, cond ssa.Value, t, e *ssa.BasicBlock) {
+		if lk := mapLookupOn(cond, chainP); lk != nil && cycleTrue == nil {
+			cycleTrue, cycleFalse = t, e
 		}
-		c.Check(ok, rule, "collectPackages/cycle test dominates already-collected shortcut", collectedIf.Pos(),
+		if lk := mapLookupOn(cond, collP); lk != nil && foundSucc == nil {
+			collLookupBlock, foundSucc = lk.Block(), t
+		}
+	})
+	if cycleTrue == nil || foundSucc == nil {
+		c.Undecided(rule, "collectPackages/cycle-test-and-shortcut", d.Pos(), "could not find the test of the import-chain map and the lookup in the collected map")
+	} else {
+		okErr := true
+		rets := returnsIn(regionOf(sf, cycleTrue))
+		for _, r := range rets {
+			okErr = okErr && errResultNonNil(r)
+		}
+		c.Check(okErr && len(rets) > 0, rule, "collectPackages/cycle branch returns error", d.Pos(), "cycle branch returns a non-nil error", "the import-cycle branch does not return an error")
+		c.Check(edgeDom(cycleFalse, collLookupBlock), rule, "collectPackages/cycle test dominates already-collected shortcut", d.Pos(),
 			"the already-collected shortcut is only reached through the no-cycle edge of the importChain test",
 			"the already-collected shortcut can be reached without passing the import-cycle test: a package on the current chain is always already collected, so a cycle is silently accepted")
-		// (4) conflict branch: inside collectedIf body, the branch comparing FilePath returns error
-		conflictOK := false
-		ast.Inspect(collectedIf.Body, func(n ast.Node) bool {
-			if is, ok := n.(*ast.IfStmt); ok {
-				if be, ok := is.Cond.(*ast.BinaryExpr); ok && be.Op == token.NEQ && branchReturnsError(info, is.Body) {
-					conflictOK = true
-				}
+		// (4) a namespace found under another file is an error: the found-branch has an error return
+		// (conflict) besides the plain return of the collected package
+		hasErr, hasOK := false, false
+		for _, r := range returnsIn(regionOf(sf, foundSucc)) {
+			if errResultNonNil(r) {
+				hasErr = true
 			}
-			return true
-		})
-		c.Check(conflictOK, rule, "collectPackages/namespace conflict is an error", collectedIf.Pos(), "a namespace claimed by two different files returns an error", "the namespace-conflict branch does not return an error")
+			if errResultNil(r) {
+				hasOK = true
+			}
+		}
+		c.Check(hasErr && hasOK, rule, "collectPackages/namespace conflict is an error", d.Pos(), "a namespace claimed by two different files returns an error", "the namespace-conflict branch does not return an error")
 	}
 	// (2)(3) recursive calls
 	recs := callsIn(info, d.Body, f)
@@ -189,37 +196,51 @@ func ruleCollectPackages(c *core.Ctx) {
 			c.Check(s == 1, rule, key+"/chain flag true at call", rc.Pos(), "importChain[ns] is true on every path reaching the recursive call",
 				"on some path (e.g. a later loop iteration) importChain[ns] is not true at the recursive call: a cycle closing through that import is not detected")
 		}
-		// depth argument is depthRemaining - k, k>=1
-		dec := false
-		if len(rc.Args) == 4 {
-			if be, ok := ast.Unparen(rc.Args[3]).(*ast.BinaryExpr); ok && be.Op == token.SUB && identObj(info, be.X) == depth {
-				if tv, ok := info.Types[be.Y]; ok && tv.Value != nil && tv.Value.String() != "0" && tv.Value.String()[0] != '-' {
-					dec = true
+		// depth: the recursive call passes depth - k (k >= 1), and is reached only where depth > 0 is known,
+		// the other side of that test returning an error (SSA: explaining locals and the way the test is
+		// written do not matter)
+		var scall *ssa.Call
+		for _, b := range sf.Blocks {
+			for _, ins := range b.Instrs {
+				if sc, ok := ins.(*ssa.Call); ok && sc.Common().StaticCallee() == sf && sc.Pos() == rc.Lparen {
+					scall = sc
 				}
 			}
 		}
+		dec, dom := false, false
+		if scall != nil {
+			for _, a := range scall.Common().Args {
+				if be, ok := a.(*ssa.BinOp); ok && be.Op == token.SUB && be.X == ssa.Value(depthP) {
+					if k, ok := be.Y.(*ssa.Const); ok && k.Value != nil && k.Int64() >= 1 {
+						dec = true
+					}
+				}
+			}
+			ifEdges(sf, func(b *ssa.BasicBlock, cond ssa.Value, t, e *ssa.BasicBlock) {
+				v, op, k, ok := cmpConst(cond)
+				if !ok || v != ssa.Value(depthP) {
+					return
+				}
+				for _, side := range []struct {
+					truth     bool
+					in, other *ssa.BasicBlock
+				}{{true, t, e}, {false, e, t}} {
+					if impliesPositive(op, k, side.truth) && edgeDom(side.in, scall.Block()) {
+						okErr := true
+						rets := returnsIn(regionOf(sf, side.other))
+						for _, r := range rets {
+							okErr = okErr && errResultNonNil(r)
+						}
+						if okErr && len(rets) > 0 {
+							dom = true
+						}
+					}
+				}
+			})
+		}
 		c.Check(dec, rule, key+"/depth decreases", rc.Pos(), "passes depthRemaining - 1", "the recursive call does not pass a strictly smaller depthRemaining: the nesting limit never triggers")
-		// a `depthRemaining <= 0` test with error return dominates the call
-		dom := false
-		ast.Inspect(d.Body, func(n ast.Node) bool {
-			is, ok := n.(*ast.IfStmt)
-			if !ok {
-				return true
-			}
-			be, ok := is.Cond.(*ast.BinaryExpr)
-			if !ok || identObj(info, be.X) != depth || !(be.Op == token.LEQ || be.Op == token.LSS || be.Op == token.EQL) {
-				return true
-			}
-			if !branchReturnsError(info, is.Body) {
-				return true
-			}
-			cb := fc.BlockOf(is.Cond)
-			if cb != nil && len(cb.Succs) == 2 && fc.OnlyVia(core.Edge{From: cb, To: cb.Succs[1]}, rc) {
-				dom = true
-			}
-			return true
-		})
 		c.Check(dom, rule, key+"/depth limit test dominates", rc.Pos(), "`depthRemaining <= 0 → error` lies on every path to the recursive call", "no depth-limit test with an error return dominates the recursive call")
+		_ = depth
 		// after the call, on the non-error path, the flag is cleared before the next call / exit:
 		// the statement following the error check assigns false.
 		cleared := false
